@@ -8,7 +8,9 @@ ID = "C10"
 LEAN_MODULES = ["Properties.C10"]
 THEOREMS = ["EngineModel.Properties.C10." + t for t in [
     "C10_observe_state", "C10_reopen_idle", "C10_history_settles", "C10_reopen_observes", "C10_open_transaction_is_lost",
-    "C10_reload", "C10_load_reports_created", "C10_create_or_load", "C10_create_or_load_logic"]]
+    "C10_reload", "C10_load_reports_created", "C10_create_or_load", "C10_create_or_load_logic",
+    "C10_durable_is_visible", "C10_reopen_invisible", "C10_every_prefix", "C10_atomic_calls_settle", "C10_api_model",
+    "C10_api_model_reopen", "C10_crates_v1", "C10_crates_v2", "C10_tracks_v2"]]
 ASSUMPTIONS = [
     "durability is SQLite's: what a connection has committed is what a later connection on the same files reads "
     "(modelled as Conn.reopen = idle on the committed database; sampled by closing and loading real on-disk libraries "
@@ -23,7 +25,10 @@ MANIFEST = dict(
     text="Theorems C10_reopen_observes (with C10_history_settles, C10_reopen_idle, C10_observe_state): in the connection "
          "model of Spec/Txn.lean, after any history of public calls — each under any fault plan — whose statement shapes "
          "are closed (Call.settles), no transaction is open, so closing and reopening changes nothing any handle can "
-         "observe; C10_open_transaction_is_lost shows the hypothesis is needed. C10_load_reports_created: load_database "
+         "observe — at every prefix of the history (C10_every_prefix), also when the library was closed and loaded after "
+         "every single call (C10_reopen_invisible); C10_open_transaction_is_lost shows the hypothesis is needed and "
+         "C10_atomic_calls_settle derives it from C14's monitor; C10_crates_v1 / C10_crates_v2 / C10_tracks_v2 carry this to "
+         "the observation functions of the concrete API models. C10_load_reports_created: load_database "
          "on the directory a creator wrote reports that schema, for every schema the library creates (decision tree and "
          "version stamps regenerated from the source each run); C10_create_or_load: creates iff nothing exists, "
          "otherwise loads and reports what is there. Tied to the code on on-disk libraries of each version: after every "
@@ -118,11 +123,13 @@ def judge_prefixes(script, outs, created_schema):
                     r["problems"].append(("monitor-failed", "fullobs -> %s / %s" % (pre[0][1][:60], post[0][1][:60] if post else "-")))
                 else:
                     r["api"] = a["api"]
-                    if a["api"] != b["api"] or a["uuid"] != b["uuid"]:
+                    if a["api"] != b["api"] or a["uuid"] != b["uuid"] or a.get("held") != b.get("held"):
                         chg = sorted(t for t in set(a["tables"]) | set(b["tables"]) if a["tables"].get(t) != b["tables"].get(t))
                         r["problems"].append(("observed-differs", "the observation through the public API after closing and loading "
                                               "differs from the one before (%s; raw tables that differ: %s)" % (
-                                                  "database uuid" if a["api"] == b["api"] else "getters of crates / tracks / database",
+                                                  "getters of crates / tracks / database" if a["api"] != b["api"] else
+                                                  "database uuid" if a["uuid"] != b["uuid"] else
+                                                  "getters through the handles held since before closing vs the handles re-obtained by id",
                                                   ",".join(chg) or "none")))
                     r["raw_equal"] = a["raw"] == b["raw"]
                 if len(pre) > 1 and len(post) > 1:
@@ -228,11 +235,11 @@ def tie(ctx):
     thorough = ctx.tier == "thorough"
     schemas = G.pick_schemas(ctx.tier, ctx.seed)
     n_hist = 2
-    lengths = [20, 28] if thorough else [14, 20]
+    lengths = [30, 40] if thorough else [24, 30]
     cases = []
     for sch in schemas:
         for hi in range(n_hist):
-            h = G.gen_history(rng, sch, lengths[hi % len(lengths)])
+            h = G.gen_history(rng, sch, lengths[hi % len(lengths)], enrich="early" if hi % 2 == 0 else False)
             cases.append({"schema": sch, "hist": list(h.lines), "ops": dict(h.ops_used)})
     # stream A (reopen after every call), B (one session), C (each sampled prefix in its own session)
     jobs = []
@@ -340,6 +347,20 @@ def tie(ctx):
             violations.append(mk_violation(s, sc, "exists-wrong", "database_exists", "database_exists answers %s on a created library" % o[3]))
         if m != o[2]:
             divergences.append({"input": "c10.reload " + s, "impl": o[2], "model": m})
+    # all versions one after the other in ONE process (anything remembered from an earlier load shows here)
+    order = list(G.SCHEMAS)
+    rng.shuffle(order)
+    chain = []
+    for s in order:
+        chain += ["create %s disk" % s, "closeall", "load"]
+    cho, _ = runner.run_harness_script(chain, watchdog=60)
+    for i, s in enumerate(order):
+        if cho[3 * i + 2] != "ok " + s:
+            upto = chain[:3 * i + 3]
+            violations.append(mk_violation(s, upto, "schema-differs", "load_database",
+                                           "created as %s after %d other libraries were loaded in the same process, load_database answers '%s'"
+                                           % (s, i, cho[3 * i + 2][:60])))
+            break
     combos = []
     v1s, v2s = G.SCHEMAS_V1, G.SCHEMAS_V2
     for pres in ("N0", "N", "L", "D", "LD"):
@@ -389,7 +410,7 @@ def tie(ctx):
             "reopen_invisible(prefixes where kept-open and reopened sessions agree)": invisible,
             "call_shapes": {"distinct": len(slist), "lean_closedShape": shape_verdicts, "calls": len(calls),
                             "autocommit_after_call": {a: sum(1 for x in calls if x[4] == a) for a in sorted({x[4] for x in calls})}},
-            "load_reports_created(schemas)": len(G.SCHEMAS), "create_or_load_experiments": col_hist,
+            "load_reports_created(schemas)": len(G.SCHEMAS), "load_chain_in_one_process": len(order), "create_or_load_experiments": col_hist,
         },
         "divergences": divergences[:20],
         "violations": vout,
@@ -408,6 +429,12 @@ def replay(ctx, hdr, body):
         for tag, t in judge_col(pres, s1, s2, req, outs):
             ok = False
             text.append("PROBLEM %s: %s" % (tag, t))
+    elif len(script) % 3 == 0 and all(script[i] == "closeall" for i in range(1, len(script), 3)):
+        for i in range(0, len(script), 3):
+            s = script[i].split(" ")[1]
+            if outs[i + 2] != "ok " + s:
+                ok = False
+                text.append("PROBLEM: created %s, load answers %s" % (s, outs[i + 2]))
     elif len(script) == 4 and script[1] == "closeall":
         s = script[0].split(" ")[1]
         if outs[2] != "ok " + s or outs[3] != "ok 1":
